@@ -180,4 +180,24 @@ E(key="poly_roots_degree", file="src/polynomial/mod.rs", anchor=r"fn poly_solve\
   atoms={"degree": "(len - 1)"}, data=[r"degree == [123]", r"degree > 3", r"^refine$", r"x\.imag\.abs\(\)"], pre="1 <= len",
   spec="2 <= len", ok=lambda len: len >= 2, dontcare=lambda len: len == 0)
 
+# ---- entry points protected by std's own bounds checks only (no explicit guard in the source): executor + oracle only
+VO = "src/vector/operations.rs"
+E(key="vec_index_mut", file=VO, anchor=r"fn index_mut", vars=[("n", 0, 6), ("i", 0, 7)], native=True, spec="i < n", ok=lambda n, i: i < n)
+E(key="vec_swap", file=VO, anchor=r"pub fn swap", vars=[("n", 0, 6), ("i", 0, 7), ("j", 0, 7)], native=True, spec="i < n /\\ j < n", ok=lambda n, i, j: i < n and j < n)
+E(key="vec_insert", file=VO, anchor=r"pub fn insert", vars=[("n", 0, 6), ("pos", 0, 8)], native=True, spec="pos <= n", ok=lambda n, pos: pos <= n)
+E(key="vec_pop", file=VO, anchor=r"pub fn pop", vars=[("n", 0, 6)], native=True, spec="1 <= n", ok=lambda n: n >= 1)
+E(key="mesh1_index", file=M1, anchor=r"fn index<'a>", vars=[("nn", 0, 6), ("node", 0, 7)], native=True, spec="node < nn", ok=lambda nn, node: node < nn)
+E(key="mesh1_index_mut", file=M1, anchor=r"fn index_mut", vars=[("nn", 0, 6), ("node", 0, 7)], native=True, spec="node < nn", ok=lambda nn, node: node < nn)
+E(key="mesh1_coord", file=M1, anchor=r"pub fn coord", vars=[("nn", 0, 6), ("node", 0, 7)], native=True, spec="node < nn", ok=lambda nn, node: node < nn)
+E(key="mesh2_coord", file=M2, anchor=r"pub fn coord", vars=[("nx", 0, 4), ("ny", 0, 4), ("i", 0, 5), ("j", 0, 5)], native=True,
+  spec="i < nx /\\ j < ny", ok=lambda nx, ny, i, j: i < nx and j < ny)
+E(key="mesh2_cross_section_xnode", file=M2, anchor=r"pub fn cross_section_xnode", vars=[("nx", 0, 5), ("ny", 1, 5), ("i", 0, 6)], native=True,
+  spec="i < nx", ok=lambda nx, ny, i: i < nx)
+E(key="mesh2_cross_section_ynode", file=M2, anchor=r"pub fn cross_section_ynode", vars=[("nx", 1, 5), ("ny", 0, 5), ("j", 0, 6)], native=True,
+  spec="j < ny", ok=lambda nx, ny, j: j < ny)
+E(key="mesh2_apply", file=M2, anchor=r"pub fn apply", vars=[("nx", 1, 4), ("ny", 1, 4), ("nv", 0, 4), ("var", 0, 5)], native=True,
+  spec="var < nv", ok=lambda nx, ny, nv, var: var < nv)
+E(key="band_index_rows", file=BD, anchor=r"fn index<'a>", vars=[("n", 0, 5), ("m1", 0, 2), ("m2", 0, 2), ("i", 0, 6)], native=True,
+  spec="i < n", ok=lambda n, m1, m2, i: i < n)
+
 BYKEY = {e["key"]: e for e in ENTRIES}
